@@ -60,13 +60,15 @@ def selftest_records(records):
     out = []
     res = [r for r in records if r["present"]["sres"] and r["mut"]["kind"] == "none" and not r["hist"] and len(r["keys0"]) == 1 and r["change"] == "none"]
     full = [r for r in records if r["changed"] and r["present"]["sdone"] and not r["present"]["sres"]]
-    if not res or not full:
-        raise Machinery("selftest: no resumed / no fallen-back record to corrupt")
-    a = copy.deepcopy(full[0]); a["id"] = -1; a["present"]["sres"] = a["present"]["cres"] = True
-    b = copy.deepcopy(res[0]); b["id"] = -2; b["present"]["sres"] = b["present"]["cres"] = False
-    c = copy.deepcopy(res[0]); c["id"] = -3; c["present"]["ekmeq"] = False
-    d = copy.deepcopy(res[0]); d["id"] = -4; d["present"]["ssuite"] = d["present"]["csuite"] = 47 if res[0]["present"]["ssuite"] != 47 else 53
-    return [a, b, c, d]
+    if full:
+        a = copy.deepcopy(full[0]); a["id"] = -1; a["present"]["sres"] = a["present"]["cres"] = True
+        out.append(a)
+    if res:
+        b = copy.deepcopy(res[0]); b["id"] = -2; b["present"]["sres"] = b["present"]["cres"] = False
+        c = copy.deepcopy(res[0]); c["id"] = -3; c["present"]["ekmeq"] = False
+        d = copy.deepcopy(res[0]); d["id"] = -4; d["present"]["ssuite"] = d["present"]["csuite"] = 47 if res[0]["present"]["ssuite"] != 47 else 53
+        out += [b, c, d]
+    return out
 
 
 def run(ctx):
@@ -97,6 +99,10 @@ def run(ctx):
     if len([i for i, _ in rejects if i >= len(allrecs)]) != len(st_recs):
         raise Machinery("binding self-test: a corrupted record was accepted - the judge constrains nothing")
     rejects = [(i, f) for i, f in rejects if i < len(allrecs)]
+    if len(st_recs) < 4 and not rejects:
+        raise Machinery("selftest: no resumed / no fallen-back record to corrupt, and nothing rejected (vacuous)")
+    cands = to_cands(allrecs, rejects)
+    ctx.candidates(binary, cands, reproduce=T.BatchReproducer(ctx, "C31", cands, lambda cs: run_cases(ctx, binary, cs, "repro")))
 
     cov = {
         "resumed_current_key": sum(1 for r in allrecs if r["present"]["sres"] and not r["hist"]),
@@ -123,9 +129,6 @@ def run(ctx):
                        "issued ticket for TLS 1.2 and 1.3, all structural mutations; non-trivial = the ticket was altered, "
                        "keys were administered or the configuration changed; plus seeded random histories" % (2 if quick else 3))
     ctx.log("C31 observations: %s" % json.dumps(cov))
-
-    cands = to_cands(allrecs, rejects)
-    ctx.candidates(binary, cands, reproduce=T.BatchReproducer(ctx, "C31", cands, lambda cs: run_cases(ctx, binary, cs, "repro")))
 
 
 def replay(ctx, path):
